@@ -227,6 +227,8 @@ def gen_c12(tier, rng):
         z2 = rng.choice([(1, 0), (rng.randrange(1, P), rng.randrange(P))])
         yield ('pairing-multiples' + ('-Z!=1' if z1 != 1 or z2 != (1, 0) else ''), 'pairing %s %s' % (S.g2_jac(B, z2), S.g1_jac(A, z1)), None)
     yield ('pairing-generators', 'pairing %s %s' % (S.g2_jac(S.P2, (1, 0)), S.g1_jac(S.P1, 1)), None)
+    yield ('pairing-Q-infinity', 'pairing %s %s' % (S.g2_jac(None, (1, 0)), S.g1_jac(S.P1, 1)), None)
+    yield ('pairing-P-infinity', 'pairing %s %s' % (S.g2_jac(S.P2, (1, 0)), S.g1_jac(None, 1)), None)
     yield ('pairing-raw', 'pairing_raw %s %s' % (S.g2_jac(S.P2, (1, 0)), S.g1_jac(S.P1, 1)), None)
     # the Annex value e(P1, Ppub-s) enters through the signature example (C09); bilinearity / order / non-degeneracy inside the library
     for _ in range(12 if tier == 'thorough' else 3):
